@@ -7,6 +7,7 @@ on every run.  The facts about the whole table are decided by the kernel at the 
 -/
 import DL.Model.Conj
 import DL.Gen.Particles
+import DL.Lemmas.DDConj
 namespace DL
 
 /-- the row of the conjugate, computed on IDs only (routes 1 and 2 of `charge_conjugate_name`) -/
@@ -174,5 +175,58 @@ theorem C04_unknown (db : DB) (n : String) (h : db.rowOfName n = none) :
 theorem C04_unknown_pdg (db : DB) (n : String) (h : dget db.pdg2evt n = none) :
     db.conjPdg n = "ChargeConj(" ++ n ++ ")" := by
   simp [DB.conjPdg, h, wrapUnknown]
+
+end DL
+
+/-! ### final states and decay modes -/
+namespace DL
+
+/-- C04 (final states): when no two particles of the final state share a conjugate,
+    `DaughtersDict.charge_conjugate` conjugates every particle and keeps its multiplicity -/
+theorem C04_daughters (conj : String → String) (ds : List String)
+    (hinj : ∀ a ∈ ds, ∀ b ∈ ds, conj a = conj b → a = b) :
+    ddConj conj ds = ssort (ds.map conj) := ddConj_eq conj ds hinj
+
+/-- the number of particles is kept -/
+theorem C04_daughters_length (conj : String → String) (ds : List String)
+    (hinj : ∀ a ∈ ds, ∀ b ∈ ds, conj a = conj b → a = b) :
+    (ddConj conj ds).length = ds.length := by
+  rw [C04_daughters conj ds hinj, ssort_length, List.length_map]
+
+/-- every multiplicity is kept -/
+theorem C04_daughters_count (conj : String → String) (ds : List String)
+    (hinj : ∀ a ∈ ds, ∀ b ∈ ds, conj a = conj b → a = b) (p : String) (hp : p ∈ ds) :
+    (ddConj conj ds).count (conj p) = ds.count p := by
+  rw [C04_daughters conj ds hinj, ssort_count, count_map_of_injOn conj ds hinj p hp]
+
+/-- C04 (decay modes): `DecayMode.charge_conjugate` keeps the branching fraction and all metadata,
+    and conjugates the daughters -/
+theorem C04_mode (conj : String → String) (m : Mode) (h : WFMode m) :
+    (modeConj conj m).bf = m.bf ∧ (modeConj conj m).mdat = m.mdat ∧
+    (modeConj conj m).ds = ddConj conj m.ds := modeConj_spec conj m h
+
+/-- C04 (agreement of the layers): the conjugated final state is what the `.dec` visitor
+    (`find_charge_conjugate_match`, no `ChargeConj` statements) produces for the same daughters -/
+theorem C04_agree (db : DB) (ds : List String)
+    (hinj : ∀ a ∈ ds, ∀ b ∈ ds, db.conjName a = db.conjName b → a = b) :
+    ddConj db.conjName ds = ssort (ds.map (matchCC db [])) := by
+  have e : ds.map (matchCC db []) = ds.map db.conjName :=
+    List.map_congr_left (fun p _ => matchCC_nil db p)
+  rw [e]
+  exact C04_daughters db.conjName ds hinj
+
+/-- non-vacuity: a conjugation swapping `K+` and `K-` and fixing everything else -/
+def swapKK (p : String) : String := if p = "K+" then "K-" else if p = "K-" then "K+" else p
+
+example : ∀ a ∈ ["K+", "K+", "pi0"], ∀ b ∈ ["K+", "K+", "pi0"], swapKK a = swapKK b → a = b := by
+  decide
+
+example : ddConj swapKK ["K+", "K+", "pi0"] = ["K-", "K-", "pi0"] := by
+  rw [C04_daughters swapKK _ (by decide)]
+  show ssort ["K-", "K-", "pi0"] = _
+  exact List.mergeSort_of_pairwise (by decide)
+
+example : (ddConj swapKK ["K+", "K+", "pi0"]).count (swapKK "K+") = 2 :=
+  C04_daughters_count swapKK _ (by decide) "K+" (by decide)
 
 end DL
